@@ -129,6 +129,9 @@ pub struct Obs {
     /// the case left threads behind that cannot be cleaned up (a deadlock was observed): the
     /// worker process ends after logging this case and the supervisor starts a fresh one
     pub poisoned: bool,
+    /// case to store in the replay file instead of the generated one (e.g. the same case with the
+    /// recorded grant sequence as its strategy, so that a replay re-drives exactly that schedule)
+    pub replay_case: Option<Value>,
 }
 
 pub const EXIT_RESTART: i32 = 17;
@@ -461,7 +464,8 @@ pub fn run_worker<P: Prop>(a: WorkArgs) -> anyhow::Result<()> {
             let n = per_sig.entry(v.signature.clone()).or_insert(0);
             *n += 1;
             let replay = if *n <= MAX_REPLAYS_PER_SIGNATURE {
-                let rec = replay_record::<P>(&a.lane, a.tier, a.seed, idx, cseed, &case_json, v);
+                let rc = obs.replay_case.as_ref().unwrap_or(&case_json);
+                let rec = replay_record::<P>(&a.lane, a.tier, a.seed, idx, cseed, rc, v);
                 Some(write_replay(&a.replay_dir, &rec))
             } else {
                 None
